@@ -47,8 +47,23 @@ impl<'a> Rd<'a> {
     }
 }
 
+/// models whose simulated frame memory is cheap to allocate per execution (small or sparse); the
+/// drawing code under test is shared by all models
+pub fn fuzz_models() -> Vec<ModelId> {
+    ALL_MODELS
+        .iter()
+        .copied()
+        .filter(|m| {
+            let (w, h) = m.fb();
+            let cells = w as u64 * h as u64;
+            cells <= 32768 || cells > (1 << 22)
+        })
+        .collect()
+}
+
 pub fn config(r: &mut Rd, max_edge: u16) -> Config {
-    let model = ALL_MODELS[r.below(ALL_MODELS.len() as u32) as usize];
+    let menu = fuzz_models();
+    let model = menu[r.below(menu.len() as u32) as usize];
     let mut transport = match r.below(8) {
         0 | 1 | 2 => Transport::Rec8,
         3 => Transport::Rec16,
